@@ -797,6 +797,14 @@ class _SPAKE2_Base:
     for piece in (sha256(pw).digest(), sha256(idSymmetric).digest(), msg1, msg2, K_bytes):
         h.update(piece)
     return h.digest()""")], tests="killed", note="messages hashed in call order instead of sorted order"),
+    B("total-int-decoder-refuses-high-byte", ["C15", "C01"], [(GR, """        i = bytes_to_number(b)
+        if i <= 0 or i >= self.p:   # Zp* excludes 0""", """        i = bytes_to_number(b)
+        if b[0] == 0xff:
+            raise ValueError("suspicious element")
+        if i <= 0 or i >= self.p:   # Zp* excludes 0""")], silent=["C05"], note="valid elements whose top byte is 0xff are refused: strictness holds, agreement does not"),
+    B("total-ed-decoder-refuses-small-y", ["C15", "C01"], [(ED, """    if y >= Q:
+        raise ValueError("non-canonical point encoding: y >= Q")""", """    if y >= Q or y < 2**128:
+        raise ValueError("non-canonical point encoding: y >= Q")""")], silent=["C05"]),
     # ------------------------------------------------------------------ C16 isolation
     B("c16-blinding-cache-on-params", ["C16"], [(SP, """        pw_blinding = self.my_blinding().scalarmult(self.pw_scalar)
 """, """        cache = self.params.__dict__.setdefault("_blind_cache", {})
